@@ -140,11 +140,21 @@ func vc_Bitmap_Bit_ensures_bit(b *Bitmap, index int, res bool) bool {
 func vc_Bitmap_BitCount_requires(b *Bitmap) bool { return b != nil && specValidBitmap(b) }
 
 func vc_Bitmap_BitCount_loop1_inv(i int, sum int, b *Bitmap) bool {
-	return i >= 0 && i <= b.count && sum == specPopcount(b, i)
+	return i >= 0 && i <= b.count && sum == specPopcount(b, i) && sum >= 0 && sum <= i
+}
+
+// the running count never decreases: every prefix count is at most the current one
+func vc_Bitmap_BitCount_loop1_inv_mono(i int, sum int, b *Bitmap) bool {
+	return vspec.Forall(0, i, func(c int) bool { return specPopcount(b, c) >= 0 && specPopcount(b, c+1) <= sum })
 }
 
 func vc_Bitmap_BitCount_ensures_popcount(b *Bitmap, n int) bool {
-	return n == specPopcount(b, b.count)
+	return n == specPopcount(b, b.count) && n >= 0 && n <= b.count
+}
+
+// the number of set bits bounds every prefix count (so a set bit's rank is a valid index among n)
+func vc_Bitmap_BitCount_ensures_mono(b *Bitmap, n int) bool {
+	return vspec.Forall(0, b.count, func(c int) bool { return specPopcount(b, c) >= 0 && specPopcount(b, c+1) <= n })
 }
 
 // ---- TABLE_MAP_EVENT body ----
